@@ -543,7 +543,11 @@ class Engine:
         if isinstance(v, SObj):
             return any(isinstance(v.cls, type) and issubclass(v.cls, c) for c in classes)
         if isinstance(v, SRef):
-            h = self.contract.callees.get(("isinstance", v.cls))
+            h = None
+            for k in (inspect.getmro(v.cls) if isinstance(v.cls, type) else (v.cls,)):
+                h = self.contract.callees.get(("isinstance", k))
+                if h:
+                    break
             if h:
                 return h(I, v, classes)
             if isinstance(v.cls, type):
